@@ -351,11 +351,6 @@ impl Term {
                     let char_iter = iter.base_iter.heap.char_iter(pstr_loc);
 
                     match tail {
-                        Term::Atom(atom) => {
-                            if atom == "[]" {
-                                term_stack.push(Term::String(atom.as_str().to_string()));
-                            }
-                        },
                         Term::List(l) if l.is_empty() => {
                             term_stack.push(Term::String(char_iter.collect()));
                         }
